@@ -46,7 +46,7 @@ ASSUMPTIONS = [
     "simulation adds is the schedule quantifier (sample index k <-> patch index k under every completion order)",
     "per-patch pair counts themselves are taken from the sequential run of the real kernels (C01 is not claimed)",
 ]
-PROBES = ["samples_with_large_common_value", "imap_completion_out_of_order", "landy_szalay", "davis_peebles", "nan_bins", "redshiftdata_with_auto", "redshiftdata_with_unk_auto", "exactly_zero_leave_one_out_normalisation", "identities_recycled", "wide_dynamic_range_weights", "resampled_after_set_patch_pair", "hundreds_of_patches"]
+PROBES = ["samples_with_large_common_value", "imap_completion_out_of_order", "landy_szalay", "davis_peebles", "nan_bins", "redshiftdata_with_auto", "redshiftdata_with_unk_auto", "exactly_zero_leave_one_out_normalisation", "identities_recycled", "wide_dynamic_range_weights", "resampled_after_set_patch_pair", "hundreds_of_patches", "handbuilt_containers"]
 REAL_VS_STUB = dict(
     real="yaw measurements, paircounts/corrfunc/corrdata/redshifts algebra, trees, numpy einsum",
     stub="multiprocessing.Pool (sim.fakemp), _num_processes; builtins.id during the repeat/churn stage (sim.identity: identities of released objects recycled in a recorded order)",
@@ -262,6 +262,22 @@ def _repeat_and_churn(case: dict, config, cats: dict, rk_: dict, kw: dict, out: 
         mutated.append((name, orc.corrfunc_state(twin), orc.sampled_state(twin.sample())))
         del twin
     out["mutated"] = mutated
+    # containers put together through the public constructors instead of by a measurement: the
+    # normalisation of dd gets per-patch sums that differ between its two sides (also when the counts
+    # are flagged as an autocorrelation); sampling must still be the leave-one-out sum of get_array()
+    from yaw.correlation.corrfunc import CorrFunc
+    from yaw.correlation.paircounts import NormalisedCounts, PatchedSumWeights
+
+    handbuilt = []
+    for name, cf in srcs:
+        twin = pickle.loads(pickle.dumps(cf))
+        sw = twin.dd.sum_weights
+        factors = 1.0 + (np.arange(sw.sum_weights2.shape[1]) % 3)  # 1, 2, 3, 1, ...: exact products
+        new_sw = PatchedSumWeights(sw.binning, np.array(sw.sum_weights1), np.array(sw.sum_weights2) * factors[None, :], auto=bool(sw.auto))
+        built = CorrFunc(NormalisedCounts(twin.dd.counts, new_sw), dr=twin.dr, rd=twin.rd, rr=twin.rr)
+        handbuilt.append((name, orc.corrfunc_state(built), orc.sampled_state(built.sample())))
+        del twin, built
+    out["handbuilt"] = handbuilt
     out["churn.ref"] = ref_states
     out["churn.first"] = {name: orc.sampled_state(cf.sample()) for name, cf in srcs}
 
@@ -350,6 +366,18 @@ def evaluate(case: dict, ref: dict, got: dict, cache_ref: dict) -> tuple[dict | 
             return (
                 sig("sample_after_mutation", "stale_samples"),
                 f"{name}: sample() after set_patch_pair() on its dd counts does not give the leave-one-out values of the modified counts",
+                probes,
+            )
+    for name, cfstate, g in got.get("handbuilt", []):
+        try:
+            data, samples = orc.loo_corrfunc(cfstate)
+        except KeyError:
+            continue
+        probes["handbuilt_containers"] = 1
+        if not orc.close_where_ref_finite(g["data"], data) or not orc.close_where_ref_finite(g["samples"], samples):
+            return (
+                sig("sample_of_handbuilt_container", "samples_wrong"),
+                f"{name}: sample() of a CorrFunc assembled through the constructors (dd normalisation with different per-patch sums on its two sides, auto={cfstate['dd']['auto']}) is not the leave-one-out statistic of its arrays",
                 probes,
             )
     if got.get("identity.recycled"):
